@@ -468,6 +468,9 @@ impl Prop for C03 {
                     let r = run_kind(&mut f, kind, &mode_f, &ctx);
                     let flog: Vec<Op> = f.store.log().into_iter().filter(|o| o.kind.is_mutation()).collect();
                     let fired = flog.iter().any(|o| o.fault.is_some());
+                    if std::env::var("VERIF_KEEP_TRACE").is_ok() {
+                        eprintln!("FAULT j={j} after={after_effect} result={} log={:?}", r.class(), flog.iter().map(|o| format!("{}{}", o.label(), if o.fault.is_some() { "!" } else { "" })).collect::<Vec<_>>());
+                    }
                     evaluations += 1;
                     let what = format!("{}{}", op_desc(&log[j]), if after_effect { " (after effect)" } else { "" });
                     for (k, v) in f.store.fired() {
